@@ -231,7 +231,8 @@ def do_obligation(pid, ob, tier, keep):
     name = ob["name"]
     if os.environ.get("VERIF_TIMEOUT_CAP"):   # development: cap every job's timeout while probing
         ob = dict(ob); ob["timeout"] = min(ob.get("timeout", 600), int(os.environ["VERIF_TIMEOUT_CAP"]))
-    wd = os.path.join(WORK, pid, re.sub(r"[^A-Za-z0-9_.-]", "_", name))
+    # per-process work dir: concurrent runs of the same property must not delete each other's files
+    wd = os.path.join(WORK, pid, "run%d" % os.getpid(), re.sub(r"[^A-Za-z0-9_.-]", "_", name))
     shutil.rmtree(wd, ignore_errors=True); os.makedirs(wd)
     rec = dict(name=name, desc=ob.get("desc", ""), harness=ob["harness"], entry=ob["entry"], unwind=ob.get("unwind"),
                unwindset=ob.get("unwindset", []), defines=ob.get("defines", []), verdict=None, violations=[], witnesses=0,
@@ -362,7 +363,7 @@ def main():
             ob = [o for o in mod.obligations("thorough") if o["name"] == rep["obligation"]]
         if not ob:
             print("obligation %s no longer exists" % rep["obligation"]); return 2
-        wd = os.path.join(WORK, pid, "replay_cmd"); shutil.rmtree(wd, ignore_errors=True); os.makedirs(wd)
+        wd = os.path.join(WORK, pid, "run%d" % os.getpid(), "replay_cmd"); shutil.rmtree(wd, ignore_errors=True); os.makedirs(wd)
         res = replay_concrete(ob[0], wd, rep["inputs"], rep["description"])
         print(json.dumps(res, indent=1))
         ok = res.get("cbmc_concrete") == "reproduced" or res.get("native") == "reproduced"
@@ -377,6 +378,8 @@ def main():
     with ThreadPoolExecutor(max_workers=JOBS) as ex:
         recs = list(ex.map(lambda o: do_obligation(pid, o, tier, keep), obs))
     wall = time.time() - t0
+    if not keep:
+        shutil.rmtree(os.path.join(WORK, pid, "run%d" % os.getpid()), ignore_errors=True)
     viol = 0; inconcl = []; kf_lines = []
     for o, r in zip(obs, recs):
         v = r["verdict"]
